@@ -139,8 +139,8 @@ fn err_class(e: &Value) -> String {
     }
 }
 
-/// (ordered payload, sorted payload, outcome class)
-fn run_impl(q: &Value, chain: &[Stage]) -> (String, String, String) {
+/// (ordered payload, sorted payload, outcome class, distinct top-level key lists of the produced queries)
+fn run_impl(q: &Value, chain: &[Stage]) -> (String, String, String, Option<Vec<Vec<String>>>) {
     let chain: Vec<Stage> = chain.to_vec();
     let q2 = q.clone();
     let r = catch(move || {
@@ -148,16 +148,23 @@ fn run_impl(q: &Value, chain: &[Stage]) -> (String, String, String) {
         apply_input_plugins(&q2, &plugins)
     });
     match r {
-        Err(_) => ("Panic".into(), "Panic".into(), "Panic".into()),
+        Err(_) => ("Panic".into(), "Panic".into(), "Panic".into(), None),
         Ok(Err(e)) => {
             let c = err_class(&e);
-            (format!("Err {}", c), format!("Err {}", c), format!("Err {}", c))
+            (format!("Err {}", c), format!("Err {}", c), format!("Err {}", c), None)
         }
         Ok(Ok(v)) => {
             let texts: Vec<String> = v.iter().map(|x| show_json(x, true)).collect();
             let mut sorted = texts.clone();
             sorted.sort_by(|a, b| a.as_bytes().cmp(b.as_bytes()));
-            (format!("Ok [{}]", texts.join(",")), format!("Ok [{}]", sorted.join(",")), "Ok".into())
+            let mut keys: Vec<Vec<String>> = vec![];
+            for x in v.iter() {
+                let ks: Vec<String> = x.as_object().map(|m| m.keys().cloned().collect()).unwrap_or_default();
+                if !keys.contains(&ks) {
+                    keys.push(ks);
+                }
+            }
+            (format!("Ok [{}]", texts.join(",")), format!("Ok [{}]", sorted.join(",")), "Ok".into(), Some(keys))
         }
     }
 }
@@ -185,7 +192,7 @@ fn add_case(cx: &mut Ctx, q: Value, napply: usize, family: &str) {
 }
 fn add_chain_case(cx: &mut Ctx, q: Value, chain: Vec<Stage>, family: &str) {
     let id = cx.st.next_id();
-    let (ordered, sorted, class) = run_impl(&q, &chain);
+    let (ordered, sorted, class, out_keys) = run_impl(&q, &chain);
     let napply = chain.iter().filter(|s| matches!(s, Stage::Grid)).count();
     let has_stub = chain.len() > napply;
     let st = &mut cx.st;
@@ -268,7 +275,7 @@ fn add_chain_case(cx: &mut Ctx, q: Value, chain: Vec<Stage>, family: &str) {
     let qc = coq_json(&q);
     if cx.set_mode {
         let terms = vec![
-            format!("GSR.line_spec {} {} {}", id, cc, qc),
+            format!("GSR.line_spec {} {} {} {}", id, cc, qc, coq_opt(&out_keys, |ks| coq_list(ks, |k| coq_list(k, |x| coq_string(x))))),
             format!("GSR.line_model_sorted {} {} {}", id, cc, qc),
         ];
         st.case(terms, vec![format!("I {} {}", id, sorted)], desc);
@@ -465,7 +472,9 @@ fn random_case(r: &mut Rng) -> (Value, usize, &'static str) {
             2 => query_with(Some(json!([1, 2])), r.below(3) as usize, &[], r),
             3 => {
                 let inner = *r.pick(&["grid_search", "my_grid_search", "grid_search_2", "xgrid_searchx"]);
-                let sec = match r.below(3) {
+                let sec = match r.below(5) {
+                    3 => json!({ "m": ["x", "y"], "k": [{"name": "base"}, {"name": "sweep", inner: {"v": [1, 2]}}] }),
+                    4 => json!({ "k": [{inner: {"v": [1, 2]}}, 4] }),
                     0 => json!({ inner: ["a", "b"] }),
                     1 => json!({ "k": ["a", inner] }),
                     _ => json!({ "k": [{"deep": {inner: 1}}], "j": [1, 2] }),
@@ -620,6 +629,21 @@ fn boundary(cx: &mut Ctx, thorough: bool) {
     add_case(cx, json!({"grid_search": {"a": ["x", "the grid_search text"]}}), 1, "recursion_guard");
     add_case(cx, json!({"grid_search": {"a": [{"b": {"my_grid_search": 1}}]}}), 1, "recursion_guard");
     add_case(cx, json!({"grid_search": {"a": ["grid", "_search", "grid_", "search"]}}), 1, "recursion_guard");
+    // object-valued options that themselves carry a grid_search key, at depth 1 (would be merged into
+    // the top level) and depth 2, alone / among ordinary options / first / last, 1 and 2 plugins
+    let sweep = json!({"name": "sweep", "grid_search": {"speed_limit": [30, 50]}});
+    let deep = json!({"name": "deep", "opts": {"grid_search": {"a": [1]}}});
+    for n in 1..=2usize {
+        add_case(cx, json!({"origin_vertex": 0, "destination_vertex": 2, "grid_search": {"model_name": ["camry", "bolt"],
+            "_scenario": [{"name": "baseline"}, sweep.clone()]}}), n, "grid_key_inside_object_choice");
+        add_case(cx, json!({"grid_search": {"_scenario": [sweep.clone(), {"name": "baseline"}]}}), n, "grid_key_inside_object_choice");
+        add_case(cx, json!({"k": 1, "grid_search": {"_scenario": [sweep.clone()]}}), n, "grid_key_inside_object_choice");
+        add_case(cx, json!({"k": 1, "grid_search": {"_scenario": [{"grid_search": 5}, 7]}}), n, "grid_key_inside_object_choice");
+        add_case(cx, json!({"k": 1, "grid_search": {"_scenario": [{"grid_search": {}}], "b": [1, 2]}}), n, "grid_key_inside_object_choice");
+        add_case(cx, json!({"k": 1, "grid_search": {"a": [1, 2], "_scenario": [{"name": "baseline"}, deep.clone()]}}), n, "grid_key_inside_object_choice");
+        add_case(cx, json!({"k": 1, "grid_search": {"_scenario": [[{"grid_search": {"a": [1]}}], 3]}}), n, "grid_key_inside_object_choice");
+        add_case(cx, json!({"k": 1, "grid_search": {"note": {"grid_search": {"a": [1]}}, "a": [1, 2]}}), n, "grid_key_inside_object_choice");
+    }
     add_case(cx, json!(7), 1, "query_not_object");
     add_case(cx, json!([{"a": 1}, {"b": 2}]), 1, "query_not_object");
     add_case(cx, json!([{"grid_search": {"a": [1, 2]}}]), 1, "query_not_object");
